@@ -854,6 +854,8 @@ def c41_monitors(obs, case=None, stream="sig_monitor", signal="sig"):
         if not should and got:
             why = "paused" if u["state"] in ("paused", "pausing") else ("suspended" if suspended else ("not-monitored" if not monitored else "no-open-run"))
             tags.append(f"monitor-update-reported-while-{why}")
+    if values.get(999):
+        tags.append("monitor-reported-an-update-made-while-the-RunStop-was-being-published")
     if obs.state == "idle" and getattr(obs.devices.get(signal), "subs", None):
         tags.append("monitor-subscription-left-on-device-at-idle")
     return sorted(set(tags))
